@@ -2,6 +2,7 @@ package sim
 
 import (
 	"fmt"
+	"strings"
 	"time"
 
 	kcp "github.com/xtaci/kcp-go/v5"
@@ -124,8 +125,8 @@ func DrawXferOpt(t *Tape, tier string) XferOpt {
 }
 
 func (o XferOpt) String() string {
-	return fmt.Sprintf("listen=%v cipher=%s fec=%d/%d udp=%v batch=%v workers=%d A{%s} B{%s} bytes=%d/%d link{base=%dus jit=%dus loss=%d dup=%d reorder=%d/%dus ge=%d/%d/%d outages=%v} heal=%v",
-		o.Listen, o.World.Cipher, o.World.FecD, o.World.FecP, o.World.UDP, o.World.Batch, o.World.SchedWorkers, o.CfgA, o.CfgB, o.BytesAB, o.BytesBA,
+	return fmt.Sprintf("listen=%v cipher=%s fec=%d/%d|%v:%d/%d udp=%v batch=%v workers=%d A{%s} B{%s} bytes=%d/%d link{base=%dus jit=%dus loss=%d dup=%d reorder=%d/%dus ge=%d/%d/%d outages=%v} heal=%v",
+		o.Listen, o.World.Cipher, o.World.FecD, o.World.FecP, o.World.Mismatch, o.World.FecD2, o.World.FecP2, o.World.UDP, o.World.Batch, o.World.SchedWorkers, o.CfgA, o.CfgB, o.BytesAB, o.BytesBA,
 		o.Link.BaseUs, o.Link.JitterUs, o.Link.LossPM, o.Link.DupPM, o.Link.ReorderPM, o.Link.ReorderUs, o.Link.GEGoodBad, o.Link.GEBadGood, o.Link.GEBadLoss, o.Link.Outages, o.HealAfter)
 }
 
@@ -510,7 +511,123 @@ func scenXfer(r *Run) {
 		}
 		o.MaxVirtual = o.HealAfter + 6*time.Hour
 	}
+	if r.Spec.Stratum == "mismatch" || r.Spec.Stratum == "mismatch-targeted" {
+		// C16 at session level: the two ends use different FEC ratios (or FEC at one
+		// end only); the stream must stay intact
+		const cs = "cfg"
+		t := r.S.Tape
+		o.World.Mismatch = true
+		r.S.Alias = map[string]string{"C01": "C16"}
+		pick := func() (int, int) {
+			if t.Chance(cs, 200) {
+				return 0, 0
+			}
+			if t.Chance(cs, 600) {
+				return 1 + t.Choose(cs, 4), 1 + t.Choose(cs, 4)
+			}
+			c := Pick(t, cs, fecChoices[1:])
+			return c[0], c[1]
+		}
+		o.World.FecD, o.World.FecP = pick()
+		for tries := 0; ; tries++ {
+			o.World.FecD2, o.World.FecP2 = pick()
+			if o.World.FecD2 != o.World.FecD || o.World.FecP2 != o.World.FecP || tries > 30 {
+				break
+			}
+		}
+		if o.World.FecD == o.World.FecD2 && o.World.FecP == o.World.FecP2 {
+			o.World.FecD2, o.World.FecP2 = o.World.FecD+1, o.World.FecP+1
+		}
+		// the MTU classes drawn earlier assumed one overhead for both ends
+		if o.CfgA.MTU != 0 && o.CfgA.MTU < 200 {
+			o.CfgA.MTU = 200
+		}
+		if o.CfgB.MTU != 0 && o.CfgB.MTU < 200 {
+			o.CfgB.MTU = 200
+		}
+		if o.Link.LossPM < 50 {
+			o.Link.LossPM = 50 + t.Choose(cs, 250)
+		}
+	}
+	if strings.HasPrefix(r.Spec.Stratum, "fec") {
+		// C07 at session level: FEC on at both ends with the same ratio, loss, and
+		// parity-aware targeted loss; the stream oracle decides
+		const cs = "cfg"
+		t := r.S.Tape
+		r.S.Alias = map[string]string{"C01": "C07"}
+		if o.World.FecD == 0 {
+			c := Pick(t, cs, fecChoices[1:])
+			o.World.FecD, o.World.FecP = c[0], c[1]
+		}
+		if o.Link.LossPM < 30 {
+			o.Link.LossPM = 30 + t.Choose(cs, 250)
+		}
+	}
 	x := NewXfer(r, o)
+	if r.Spec.Stratum == "fec-noparity" || r.Spec.Stratum == "fec-completing" {
+		mode := r.Spec.Stratum
+		w := x.W
+		seen := map[string]map[uint32]int{}
+		w.Links.Filter = func(p *OutPkt) ([]Delivery, bool) {
+			f := p.Frame
+			if f == nil || !f.HasFEC || f.OOB {
+				return nil, false
+			}
+			key := p.Src.addrStr + ">" + p.Dst
+			if mode == "fec-noparity" {
+				// losing all parity never harms delivery
+				if f.FecType == wFecParity {
+					r.S.Stats.Fault("parity-drop")
+					r.S.L.Logf("fate %s#%d parity-drop", key, p.Idx)
+					return nil, true
+				}
+				return nil, false
+			}
+			// drop one data packet per group, so that every group needs its parity
+			fc := w.connFEC[p.Src.id]
+			n := uint32(fc[0] + fc[1])
+			g := f.FecSeq / n
+			if seen[key] == nil {
+				seen[key] = map[uint32]int{}
+			}
+			if f.FecType == wFecData && seen[key][g] == 0 && r.S.Tape.Chance("link/"+key, 500) {
+				seen[key][g]++
+				r.S.Stats.Fault("group-data-drop")
+				r.S.L.Logf("fate %s#%d group-data-drop", key, p.Idx)
+				return nil, true
+			}
+			return nil, false
+		}
+	}
+	if r.Spec.Stratum == "mismatch-targeted" {
+		// drop exactly the packets whose FEC type contradicts what the receiver's
+		// configured ratio expects at that id, so that it never sees a reason to
+		// re-tune and decodes parity under the wrong layout
+		w := x.W
+		w.Links.Filter = func(p *OutPkt) ([]Delivery, bool) {
+			f := p.Frame
+			if f == nil || !f.HasFEC || f.OOB {
+				return nil, false
+			}
+			// receiver's configuration = the configuration of the conn the datagram goes to
+			dst := w.Net.conns[p.Dst]
+			if dst == nil {
+				return nil, false
+			}
+			rc := w.connFEC[dst.id]
+			d2, p2 := rc[0], rc[1]
+			if d2 == 0 || p2 == 0 {
+				d2, p2 = 1, 1 // a session without FEC creates a 1/1 decoder on demand
+			}
+			expData := f.FecSeq%uint32(d2+p2) < uint32(d2)
+			if expData != (f.FecType == wFecData) {
+				r.S.Stats.Fault("targeted-drop")
+				r.S.L.Logf("fate %s>%s#%d targeted-drop (type contradicts receiver's %d/%d)", p.Src.addrStr, p.Dst, p.Idx, d2, p2)
+				return nil, true
+			}
+			return nil, false
+		}
+	}
 	if o.Clean18 {
 		x.W.CheckOnce = true
 	}
